@@ -602,6 +602,11 @@ class C20(Check):
         except Exception as e:
             out = ('exc', type(e).__name__)
         log.add('last_bytes', size, n, out[0], seek_errno)
+        if seek_errno and not (files and files[0].seeks):
+            # this tree finds the tail without seeking (fstat + pread on
+            # the descriptor, say): the fault never fired
+            self.bump('probes', 'seek_fault_not_reached')
+            seek_errno = None
         if seek_errno:
             self.bump('faults', 'seek_error')
             if out != ('oserror', seek_errno):
